@@ -98,7 +98,7 @@ fn gen_profile(profile: &str, seed: u64, n: usize, thorough: bool, out: &mut Out
                                 if !small && !thorough && vw && f.is_some() {
                                     continue; // quick tier: thin out the 5-row sets
                                 }
-                                out.script(&gen::gen_c10(base, &p, q, f, vw));
+                                out.script(&gen::gen_c10(base, &p, q, f, vw, "rows"));
                             }
                         }
                     }
@@ -115,15 +115,17 @@ fn gen_profile(profile: &str, seed: u64, n: usize, thorough: bool, out: &mut Out
                 let f = *r.pick(&sorts);
                 let vw = r.chance(1, 3);
                 let mut p = rows.clone();
+                let mut pk = "rows";
                 if r.chance(1, 2) {
                     r.shuffle(&mut p);
                 } else {
+                    pk = "values";
                     // permute individual values
                     let mut vals: Vec<String> = rows.iter().flatten().cloned().collect();
                     r.shuffle(&mut vals);
                     p = vals.chunks(ncols).map(|c| c.to_vec()).collect();
                 }
-                out.script(&gen::gen_c10(&rows, &p, q, f, vw));
+                out.script(&gen::gen_c10(&rows, &p, q, f, vw, pk));
             }
         }
         "c11" => {
